@@ -36,12 +36,11 @@ Proof.
 Qed.
 
 Section Apis.
-Variable ec_point_ok : N -> bytes -> bool.
-Variable ec_pub_of_priv : N -> bytes -> option bytes.
-Notation handle_no_secrets := (handle_no_secrets ec_point_ok ec_pub_of_priv).
-Notation read_no_secrets := (read_no_secrets ec_point_ok ec_pub_of_priv).
-Notation handle_from_proto := (handle_from_proto ec_point_ok ec_pub_of_priv).
-Notation read := (read ec_point_ok ec_pub_of_priv).
+Variable L : stdlib.
+Notation handle_no_secrets := (handle_no_secrets L).
+Notation read_no_secrets := (read_no_secrets L).
+Notation handle_from_proto := (handle_from_proto L).
+Notation read := (read L).
 
 (* NewHandleWithNoSecrets: exactly the cleartext construction restricted to
    keysets free of secrets *)
@@ -122,12 +121,11 @@ Definition reported_prefix (u : bytes) (p : N) : N :=
   if url_collapses u && (p =? pt_legacy) then pt_crunchy else p.
 
 Section Info.
-Variable ec_point_ok : N -> bytes -> bool.
-Variable ec_pub_of_priv : N -> bytes -> option bytes.
-Notation parse_key := (parse_key ec_point_ok ec_pub_of_priv).
-Notation to_entry := (to_entry ec_point_ok ec_pub_of_priv).
-Notation to_entries := (to_entries ec_point_ok ec_pub_of_priv).
-Notation read := (read ec_point_ok ec_pub_of_priv).
+Variable L : stdlib.
+Notation parse_key := (parse_key L).
+Notation to_entry := (to_entry L).
+Notation to_entries := (to_entries L).
+Notation read := (read L).
 
 Ltac rhs_compute :=
   match goal with |- _ = ?r => let v := eval vm_compute in r in change r with v end.
@@ -158,14 +156,16 @@ Proof.
     repeat match type of H with (if ?c then Err else _) = Ok _ => destruct c; [discriminate|] end.
     apply bind_ok in H. destruct H as [[[[c h] e] pt] [_ H]].
     destruct (coord_size c); [|discriminate]. apply bind_ok in H. destruct H as [dd [_ H]].
-    destruct (ec_pub_of_priv c dd); [|discriminate]. destruct (beq _ pt); [|discriminate].
+    destruct (ec_pub_of_priv L c dd); [|discriminate]. destruct (beq _ pt); [|discriminate].
     inversion H; subst. cbn [aead_like]. rhs_compute. reflexivity. }
   destruct (beq (kd_url kd) u_rsa_pkcs1_pub) eqn:E12; [scalar_branch E12|].
   destruct (beq (kd_url kd) u_rsa_pss_pub) eqn:E13; [scalar_branch E13|].
   destruct (beq (kd_url kd) u_chacha) eqn:E14; [scalar_branch E14|].
   destruct (beq (kd_url kd) u_xchacha) eqn:E15; [scalar_branch E15|].
   destruct (beq (kd_url kd) u_xaes_gcm) eqn:E16; [scalar_branch E16|].
-  intros H. apply okb_ok in H. destruct H as [_ ->]. unfold url_collapses. rewrite E3, E4, E5, E6, E14, E15. reflexivity.
+  (* the key types modelled later and the fallback key: none of them is AEAD-like *)
+  intros H. apply parse_key_more_kind in H. unfold url_collapses. rewrite E3, E4, E5, E6, E14, E15.
+  destruct d; try discriminate H; reflexivity.
 Qed.
 
 (* what an entry reports, in terms of the key it was made from *)
@@ -225,7 +225,7 @@ Proof.
 Qed.
 
 Theorem handle_info_of_metadata ks h :
-  handle_from_proto ec_point_ok ec_pub_of_priv (Some ks) = Ok h ->
+  handle_from_proto L (Some ks) = Ok h ->
   info_of_handle h = mkInfo (ks_primary ks) (map reported_key_info (i_keys (metadata ks))).
 Proof.
   unfold Untrusted.handle_from_proto. destruct (validate (Some ks)); [|discriminate].
@@ -240,8 +240,8 @@ Qed.
 (* non-interference: two keysets that agree on (type url, status, id, prefix
    type, primary) give the same KeysetInfo, whatever their key bytes *)
 Theorem info_noninterference k1 k2 h1 h2 :
-  handle_from_proto ec_point_ok ec_pub_of_priv (Some k1) = Ok h1 ->
-  handle_from_proto ec_point_ok ec_pub_of_priv (Some k2) = Ok h2 ->
+  handle_from_proto L (Some k1) = Ok h1 ->
+  handle_from_proto L (Some k2) = Ok h2 ->
   metadata k1 = metadata k2 -> info_of_handle h1 = info_of_handle h2.
 Proof.
   intros H1 H2 M. rewrite (handle_info_of_metadata _ _ H1), (handle_info_of_metadata _ _ H2).
@@ -250,8 +250,8 @@ Qed.
 
 (* Handle.String() is the text form of KeysetInfo(), whatever prototext does *)
 Theorem string_noninterference (text_of_info : keyset_info -> bytes) k1 k2 h1 h2 :
-  handle_from_proto ec_point_ok ec_pub_of_priv (Some k1) = Ok h1 ->
-  handle_from_proto ec_point_ok ec_pub_of_priv (Some k2) = Ok h2 ->
+  handle_from_proto L (Some k1) = Ok h1 ->
+  handle_from_proto L (Some k2) = Ok h2 ->
   metadata k1 = metadata k2 -> text_of_info (info_of_handle h1) = text_of_info (info_of_handle h2).
 Proof. intros H1 H2 M. f_equal. eapply info_noninterference; eauto. Qed.
 
@@ -324,13 +324,12 @@ Proof.
 Qed.
 
 Section EncryptedProofs.
-Variable ec_point_ok : N -> bytes -> bool.
-Variable ec_pub_of_priv : N -> bytes -> option bytes.
+Variable L : stdlib.
 (* the key-encryption AEAD as a family indexed by the key *)
 Variable K : Type.
 Variable aead_enc : K -> bytes -> bytes -> bytes -> bytes.     (* key, iv, plaintext, associated data *)
 Variable aead_dec : K -> bytes -> bytes -> option bytes.       (* key, ciphertext, associated data *)
-Notation read_encrypted k := (read_encrypted ec_point_ok ec_pub_of_priv (aead_dec k)).
+Notation read_encrypted k := (read_encrypted L (aead_dec k)).
 
 (* unconditionally: a handle comes back only if the AEAD accepted *)
 Theorem encrypted_read_needs_aead k b ad h : read_encrypted k b ad = Ok h ->
@@ -363,7 +362,7 @@ Theorem right_key_reads_serialized_keyset k h iv ad b :
   blen (encrypted_ct (aead_enc k) h iv ad) < 18446744073709551616 ->
   read_encrypted k b ad =
   match decode_keyset (ser_keyset (proto_of_handle h)) with
-  | Some ks => handle_from_proto ec_point_ok ec_pub_of_priv (Some ks)
+  | Some ks => handle_from_proto L (Some ks)
   | None => Err
   end.
 Proof.
